@@ -19,12 +19,20 @@ import os
 MOD = "mc.fixtures.c15.classes"
 VAL = {"default": 1, "env": 2, "cfg": 3, "argv": 4, "obj": 5, "str": 6}
 TGT = 99  # value supplied for the target itself; no compute function of the fixtures can produce it
-HAS_K = {"Base": True, "Derived": True, "DefK": True, "NoK": False}
+HAS_K = {"Base": True, "Derived": True, "DefK": True, "NoK": False, "OptK": True}
 
 
 def sval(i, ch):
     """The value channel `ch` writes for source leaf number `i`."""
     return VAL[ch] + 10 * i
+
+
+def chtoken(tok):
+    """A channel token of case["src"]: "argv" (the channel writes its value) or "argv:null" (it writes null).
+    -> (channel, writes_null)"""
+    ch, _, what = tok.partition(":")
+    assert what in ("", "null"), tok
+    return ch, what == "null"
 
 
 def _funcs():
@@ -210,7 +218,15 @@ SPELL = {
                   ("append", ["--model.k+=99"]), ("append", ["--model.k+", "99"]), ("append", ["--model.k+=[99]"])],
     },
 }
-ENC = {"int": lambda v: v, "list": lambda v: [v], "bool": lambda v: v % 2 == 0}
+ENC = {"int": lambda v: v, "list": lambda v: [v], "bool": lambda v: v % 2 == 0,
+       "spec": lambda v: {"class_path": f"{MOD}.Base", "init_args": {"k": v}}}
+
+
+def ident(info, v):
+    """The channel-identifying part of the final value of a source leaf (whole-class sources: the k inside)."""
+    if info.get("enc") == "spec" and isinstance(v, dict):
+        return lookup(v, ["init_args", "k"])
+    return v
 
 
 def sh_spell(J, p, o):
@@ -258,7 +274,49 @@ def sh_spell(J, p, o):
     }
 
 
-SHAPES = {"plain": sh_plain, "two": sh_two, "grp": sh_grp, "cgroup": sh_cgroup, "init": sh_init, "list": sh_list,
+# Sources whose type admits None (family `null`): the final value of a source may be None - left at a None default
+# or set (back) to null by any channel - and None is a value like any other: the target must be f(None) (None itself
+# without compute function), not skipped, not kept.  Kinds: `plain` (Optional[int] argument), `cls` (the whole of an
+# Optional[class] argument as source), `clsinit` (an Optional[int] parameter below a class-typed argument),
+# `c2i` (such a parameter -> Optional parameter k of another class-typed argument).
+NULL_LEAF = {"plain": "s", "cls": "y", "clsinit": "y.init_args.lim", "c2i": "y.init_args.lim"}
+
+
+def sh_null(J, p, o):
+    from typing import Optional
+
+    C = _funcs()
+    kind, fn, dn = o["nk"], o.get("fn"), bool(o.get("dn"))
+    leaf = NULL_LEAF[kind]
+    dflt = None if dn else sval(0, "default")
+    info = {"leaves": [leaf], "defaults": {leaf: dflt}, "nullable": True, "nk": kind, "enc": "int"}
+    if kind == "plain":
+        p.add_argument("--s", type=Optional[int], default=dflt)
+    elif kind == "cls":
+        p.add_argument("--y", type=Optional[C.Base], default=None if dn else J.lazy_instance(C.Base, k=dflt))
+        info["enc"] = "spec"
+    else:
+        cls = C.SrcN if dn else C.SrcV
+        p.add_argument("--y", type=cls, default=J.lazy_instance(cls))
+        # no environment variable reaches below a class argument: the environment supplies the whole class spec
+        info["leafenv"] = {leaf: ("y", cls.__name__, "lim")}
+    if kind == "c2i":
+        p.add_argument("--x", type=C.Base, default=J.lazy_instance(C.OptK))
+        p.link_arguments(leaf, "x.init_args.k", C.FUNCS.get(fn))
+        info["links"] = [{"src": [leaf], "fn": fn, "tgt": "x.init_args.k", "kind": "init", "carg": "x"}]
+        info["one"] = {"x": "OptK"}
+        return info
+    if kind == "cls":
+        p.add_argument("--t", type=int, required=True)
+    else:
+        p.add_argument("--t", type=Optional[int], default=55)
+    p.link_arguments(leaf, "t", C.FUNCS.get(fn))
+    info["links"] = [{"src": [leaf], "fn": fn, "tgt": "t", "kind": "plain"}]
+    info.update(topt="--t", tenv="t")
+    return info
+
+
+SHAPES = {"null": sh_null, "plain": sh_plain, "two": sh_two, "grp": sh_grp, "cgroup": sh_cgroup, "init": sh_init, "list": sh_list,
           "holder": sh_holder, "spell": sh_spell}
 
 
@@ -337,9 +395,13 @@ def render(info, case):
     env, cfgd, doc, items, early = {}, {}, {}, [], []
     doc_ch = "obj" if entry == "object" else "str"
     for i, leaf in enumerate(info["leaves"]):
-        for ch in case["src"].get(leaf, ()):
-            v = enc(sval(i, ch))
-            if ch == "env":
+        for tok in case["src"].get(leaf, ()):
+            ch, null = chtoken(tok)
+            v = None if null else enc(sval(i, ch))
+            if ch == "env" and leaf in info.get("leafenv", {}):
+                carg, cls, param = info["leafenv"][leaf]
+                env[env_name(prefix, carg)] = json.dumps({"class_path": f"{MOD}.{cls}", "init_args": {param: v}})
+            elif ch == "env":
                 env[env_name(prefix, leaf)] = json.dumps(v)
             elif ch == "cfg":
                 set_nested(cfgd, leaf, v)
@@ -582,6 +644,8 @@ def check_config(J, parser, make_parser, info, cfg, devs, obs, serial=("yaml", "
     for link in info["links"]:
         want = expected_value(tree, prefix, link)
         places = target_values(tree, prefix, link)
+        # the final value of a source is None (sources whose type admits it): named in the signature
+        nullsrc = "null-source" if any(lookup(tree, prefix + s.split(".")) is None for s in link["src"]) else None
         if link["kind"] == "list":
             carg = lookup(tree, prefix + link["carg"].split("."))
             classes = [class_of(i) for i in carg] if isinstance(carg, list) else []
@@ -606,16 +670,23 @@ def check_config(J, parser, make_parser, info, cfg, devs, obs, serial=("yaml", "
             elif want is ABSENT:
                 devs.append((sig("source-absent-after-parse", info, link, tag), f"sources {link['src']} not all in {tree!r}"))
             elif got is ABSENT:
-                devs.append((sig("target-absent", info, link, tag), f"{where} missing; expected {want!r}; cfg {tree!r}"))
+                devs.append((sig("target-absent", info, link, nullsrc or tag), f"{where} missing; expected {want!r}; cfg {tree!r}"))
             elif tcanon(got) != tcanon(want):
-                kept = "supplied-value-kept" if got in (TGT, {"z": TGT}, [TGT]) else tag
+                kept = nullsrc or ("supplied-value-kept" if got in (TGT, {"z": TGT}, [TGT]) else tag)
                 devs.append(
                     (sig("target-wrong", info, link, kept), f"{where} = {got!r}, f(final sources) = {want!r}; cfg {tree!r}")
                 )
     obs["judged"] = obs.get("judged", 0) + judged
     ref = drop_config(tree)
+    # Family `null`: dump() leaves out None-valued entries by default (documented skip_none=True).  Such a dump is
+    # lossy on its own account, links or no links - a None that overrides a non-None default is gone, and a
+    # subcommand whose values are all None dumps as "cmd: {}", which parse_string does not even accept - that is the
+    # dump option's business (C01), not the links'.  The default dumps are therefore only inspected there (no target
+    # key), and the faithful dump (skip_none=False, format token "yaml+nulls") is the one that is re-parsed.
     for fmt in serial:
         kwargs = {"format": fmt}
+        if fmt == "yaml+nulls":
+            kwargs = {"format": "yaml", "skip_none": False}
         if fmt == "yaml+skip_default":
             # only "no target key" is judged here: skip_default fails on every parser with subcommands and is lossy
             # for class-typed values - both are findings of C01 (dump-skip_default:*), not of the links
@@ -793,10 +864,16 @@ def run_single(case):
         winners = []
         enc = ENC[info.get("enc", "int")]
         for i, leaf in enumerate(info["leaves"]):
-            v = lookup(tree, info["prefix"] + leaf.split("."))
+            v = ident(info, lookup(tree, info["prefix"] + leaf.split(".")))
             dflt = info.get("defaults", {}).get(leaf, sval(i, "default"))
-            supplied = [(enc(sval(i, ch)), ch) for ch in case["src"].get(leaf, ())]
+            toks = [chtoken(tok) for tok in case["src"].get(leaf, ())]
+            supplied = [(None if null else ident(info, enc(sval(i, ch))), ch) for ch, null in toks]
             won = [ch for x, ch in supplied if tcanon(x) == tcanon(v)]
+            if info.get("nullable") and v is None:
+                # a None final value: identifiable when exactly one channel wrote null (or none did: the default)
+                nulls = [ch for ch, null in toks if null]
+                if len(nulls) == 1 or (not toks and dflt is None):
+                    obs.setdefault("null_final", []).append([info["nk"], nulls[0] if nulls else "default"])
             if info.get("enc") == "bool":
                 # only two values: the channel cannot be identified from the final value (the list / int kinds of
                 # the same family carry the channel guard)
@@ -841,6 +918,11 @@ LINKS = [
     (["x"], "fspec", "c"),
     (["x.init_args.other"], None, "b"),
     (["x.init_args.other"], "f1", "x.init_args.k"),
+    # group -> parameter of the class argument, whole class -> group member: with the links above these give
+    # dependency chains of three links through nested keys (a -> g.n, g -> x.init_args.k, x -> c;
+    # a -> x.init_args.k, x -> g.n, g -> c / d) and, together, a cycle through nested keys
+    (["g"], "fgroup", "x.init_args.k"),
+    (["x"], "fspec", "g.n"),
     # a link onto one of its own sources
     (["a"], None, "a"),
     (["a", "b"], "f2", "b"),
@@ -867,6 +949,17 @@ def inside(key, group):
     return key.startswith(group + ".")
 
 
+def nest(key1, key2):
+    return inside(key1, key2) or inside(key2, key1)
+
+
+def dependencies(links):
+    """(i, j): the target of link i is nested with a source of link j - link i has to be applied before link j
+    (exact equality of the keys is the `chain` relation, which link_arguments refuses)."""
+    return [(i, j) for i in range(len(links)) for j in range(len(links))
+            if i != j and any(nest(links[i][2], s) for s in links[j][0])]
+
+
 def relations(links):
     """Reference classification of an ordered link set -> set of relation names."""
     rel = set()
@@ -887,11 +980,27 @@ def relations(links):
                 rel.add("prefix-chain")  # declaration order = dependency order
             if inside(tgt_i, tgt_j) or inside(tgt_j, tgt_i):
                 rel.add("nested-targets")
+    # the dependency graph over nested keys as a whole: cycles, and paths over three links (the order in which the
+    # links have to be applied is then constrained by more than one dependency)
+    deps = dependencies(links)
+    reach = set(deps)
+    for _ in links:
+        reach |= {(a, d) for a, b in reach for c, d in deps if b == c}
+    if any(a == b for a, b in reach):
+        # a cycle over two or more links.  Every cycle of the catalogue runs through fgroup / fspec / the automatic
+        # group-to-dict conversion, which read every member (the links with fhalf, which reads one member only, lie on
+        # no cycle that is not refused as a chain / double target anyway): no order of application can satisfy it
+        rel.add("nest-cycle")
+    elif any(b == c and a != d for a, b in deps for c, d in deps):
+        rel.add("prefix-chain3" if all(a < b for a, b in deps) else "prefix-chain3-wrong-order")
     return rel
 
 
 MUST_REFUSE = ("self", "double", "chain")
-MAY_REFUSE = ("prefix-chain-wrong-order", "self-prefix", "prefix-chain", "nested-targets")
+# accepted by the library although no order of application can satisfy all links: known finding, not parsed
+UNSATISFIABLE = ("nest-cycle",)
+MAY_REFUSE = ("prefix-chain3-wrong-order", "prefix-chain3", "prefix-chain-wrong-order", "self-prefix", "prefix-chain",
+              "nested-targets")
 
 
 def linkset_inputs(links):
@@ -924,8 +1033,9 @@ def run_linkset(case):
     links = [(list(s), f, t) for s, f, t in case["links"]]
     rel = relations(links)
     must = [r for r in MUST_REFUSE if r in rel]
+    unsat = [r for r in UNSATISFIABLE if r in rel]
     may = [r for r in MAY_REFUSE if r in rel]
-    relname = (must or may or ["independent"])[0]
+    relname = (must or unsat or may or ["independent"])[0]
     devs, obs = [], {"relation": relname}
 
     def make(upto=None):
@@ -960,13 +1070,20 @@ def run_linkset(case):
         if refused_at is not None:
             obs["refused"] = 1
             sub = relations(links[:refused_at])
-            if not any(r in sub for r in MUST_REFUSE + MAY_REFUSE):
+            if not any(r in sub for r in MUST_REFUSE + UNSATISFIABLE + MAY_REFUSE):
                 devs.append((f"linkset:{relname}:spurious-refusal", f"links {links[:refused_at]!r} refused: {_short(r)}"))
             return devs, obs
         obs["accepted_set"] = 1
         if must:
             devs.append((f"linkset:{must[0]}:accepted", f"link_arguments accepted {links!r}"))
-        for entry, data in linkset_inputs(links):
+        elif unsat:
+            # no order of application satisfies such a set, so there is nothing to judge on a parse
+            devs.append((f"linkset:{unsat[0]}:accepted", f"link_arguments accepted {links!r}"))
+            return devs, obs
+        inputs = linkset_inputs(links)
+        if case.get("inputs"):  # sets of three and more links in the quick tier: defaults and argv only
+            inputs = [inputs[n] for n in case["inputs"]]
+        for entry, data in inputs:
             parser = make()
             if entry == "args":
                 r = outcome(parser.parse_args, list(data))
